@@ -113,6 +113,53 @@ func gate(parked, probe string) (parkedReached, arrived bool) {
 	return
 }
 
+// buildVsRegister: a codec build is parked inside its second registry lookup; a Register call is started (it
+// queues behind the reader); the build is released. Both must complete: a build that still holds a read lock
+// from an earlier lookup would now wait behind the queued writer for ever.
+func buildVsRegister() (completed bool) {
+	release := make(chan struct{})
+	parked := make(chan struct{}, 1)
+	var lookups atomic.Int32
+	var builder atomic.Bool
+	setHooks(func(p string) {
+		if p == "registry.r.enter" && builder.Load() && lookups.Add(1) == 2 {
+			parked <- struct{}{}
+			<-release
+		}
+	})
+	defer setHooks(nil)
+	done := make(chan struct{}, 2)
+	go func() {
+		builder.Store(true)
+		s, _ := avro.SchemaFromString(`{"type":"record","name":"g","fields":[{"name":"a","type":"long"},{"name":"b","type":"long"},{"name":"c","type":"string"},{"name":"d","type":"long"}]}`)
+		s.Codec(struct {
+			A int64  `json:"a"`
+			B int64  `json:"b"`
+			C string `json:"c"`
+			D int64  `json:"d"`
+		}{})
+		builder.Store(false)
+		done <- struct{}{}
+	}()
+	select {
+	case <-parked:
+	case <-time.After(2 * time.Second):
+		close(release)
+		return true // never reached the second lookup: nothing realised
+	}
+	go func() { sectionOp("registry.w"); done <- struct{}{} }()
+	time.Sleep(50 * time.Millisecond) // let the writer queue up
+	close(release)
+	for i := 0; i < 2; i++ {
+		select {
+		case <-done:
+		case <-time.After(5 * time.Second):
+			return false
+		}
+	}
+	return true
+}
+
 type stressRecord struct {
 	Op    string `json:"op"`
 	G     int    `json:"g"`
@@ -403,6 +450,15 @@ func driveC12(c *driverCtx) error {
 				c.rec.NewCase()
 				c.rec.Emit(fmt.Sprintf("C12|gate|%s|%s", parked, probe), map[string]any{"op": "gate", "parked": parked, "probe": probe, "reached": reached, "arrived": arrived})
 			}
+		}
+	}
+	// (1a) a registration arriving in the middle of a codec build
+	for rep := 0; rep < c.pick(2, 6); rep++ {
+		ok := buildVsRegister()
+		c.rec.NewCase()
+		c.rec.Emit("C12|build-vs-register", map[string]any{"op": "progress", "what": "a codec build and a Register call started during it", "completed": ok})
+		if !ok {
+			break // the goroutines are stuck for good; the registry is unusable from here on
 		}
 	}
 	// (1b) zone-cache hammer in ordinary (fast) children: several rounds, each a fresh process
